@@ -282,6 +282,13 @@ class MinMaxAggregator:
 
         body = []
         var_x = Variable(LOC, "X")
+        taken = set(collect_ast(head, "Variable"))
+        for lit in lits_with_vars:
+            taken.update(collect_ast(lit, "Variable"))
+        counter = 0
+        while var_x in taken:  # the rule's own variables may be called X as well
+            var_x = Variable(LOC, "X" + str(counter))
+            counter += 1
 
         body.append(
             Literal(
